@@ -13,10 +13,14 @@
                   enterAltScreen, exitAltScreen, sendQueries and Suspend are the lists the translator produced
                   from /repo/vaxis.go on this run (gen/GenModes.v)
      term         the reference terminal: the thirteen private modes Vaxis manages plus any other mode, keypad
-                  mode, kitty keyboard stack, cursor style, pointer shape, application id, pen, hyperlink
-     fresh_term other kitty cstyle appid honours
+                  mode, the kitty keyboard stacks (one per screen, as the kitty protocol demands: [t_kitty] is the
+                  stack of the screen that is shown and the one push / pop act on, [t_kitty_other] the stack of
+                  the other screen; ?1049 h / l exchange them, nothing is reset), cursor style, pointer shape,
+                  application id, pen, hyperlink
+     fresh_term other kitty kitty_alt cstyle appid honours
                   a terminal before Vaxis starts: managed modes at their power-on value (cursor visible, primary
-                  screen, ...), pointer shape "text", everything else arbitrary
+                  screen, ...), pointer shape "text", everything else arbitrary -- including both kitty stacks
+                  ([kitty] of the main screen, [kitty_alt] of the alternate screen)
      protocol     the API protocol of a session (no Resume unless suspended, no rendering while suspended,
                   only Close after Close, SetAppID only if vx.CanSetAppID())
      hits_suspended_shutdown   the guard of the recorded finding suspend-then-close. *)
@@ -40,15 +44,16 @@ From Vx Require Import base.Prelude model.ParserTypes model.Parser model.ModeTer
 (* For every option set, every detected capability set, every data, every session that follows the API
    protocol and does not shut down while suspended: no operation hangs, and whenever the session ends in
    Suspend / Close / Kill / Panic (phase PSusp or PClosed) the terminal equals the terminal before start-up,
-   field for field: all modes, cursor visible, primary screen, numeric keypad, kitty stack, cursor style,
-   pointer shape, application id, default pen, no hyperlink, nothing unknown received.
+   field for field: all modes, cursor visible, primary screen, numeric keypad, the kitty stack of the main
+   screen AND the one of the alternate screen, cursor style, pointer shape, application id, default pen, no
+   hyperlink, nothing unknown received.
    Hypotheses on the terminal: it reported its own application id if it answered OSC 176 at all; its cursor
    style is the one it reported by DECRQSS (d_ustyle; 0 = default when it reported none). *)
 Theorem C04_session_restores :
   forall (o : opts) (det : flags) (d : data) (rows cols : Z) (ops : list op)
-         (other kitty0 appid0 : list Z) (honours : bool) (ph : phase),
+         (other kitty0 kalt0 appid0 : list Z) (honours : bool) (ph : phase),
   let fl := apply_quirks o (with_nomouse (o_nomouse o) det) in
-  let t0 := fresh_term other kitty0 (d_ustyle d) appid0 honours in
+  let t0 := fresh_term other kitty0 kalt0 (d_ustyle d) appid0 honours in
   (f_osc176 fl = true -> d_appid d = appid0) ->
   protocol fl PRun ops = Some ph ->
   hits_suspended_shutdown ops false false = false ->
@@ -75,13 +80,13 @@ Print Assumptions C04_prefix_closed.
 (* New itself is an exit path: when reportWinsize fails after start-up, New closes what it started before it
    returns the error, and the terminal is back where it was (for every capability set; no hang) *)
 Theorem C04_failed_new_restores :
-  forall (o : opts) (det : flags) (d : data) (other kitty0 appid0 : list Z) (cstyle0 : Z) (honours : bool),
+  forall (o : opts) (det : flags) (d : data) (other kitty0 kalt0 appid0 : list Z) (cstyle0 : Z) (honours : bool),
   let fl := apply_quirks o (with_nomouse (o_nomouse o) det) in
   (f_osc176 fl = true -> d_appid d = appid0) ->
-  sem_toks (s_out (failed_new o det d)) (fresh_term other kitty0 cstyle0 appid0 honours)
-  = fresh_term other kitty0 (d_ustyle d) appid0 honours
+  sem_toks (s_out (failed_new o det d)) (fresh_term other kitty0 kalt0 cstyle0 appid0 honours)
+  = fresh_term other kitty0 kalt0 (d_ustyle d) appid0 honours
   /\ s_hung (failed_new o det d) = false.
-Proof. intros o det d other kitty0 appid0 cstyle0 honours fl H. rewrite failed_new_factor. apply failed_from_restores. exact H. Qed.
+Proof. intros o det d other kitty0 kalt0 appid0 cstyle0 honours fl H. rewrite failed_new_factor. apply failed_from_restores. exact H. Qed.
 Print Assumptions C04_failed_new_restores.
 
 (* a second Close is harmless: it changes nothing and writes nothing *)
@@ -90,14 +95,15 @@ Proof. exact close_idempotent. Qed.
 Print Assumptions C04_close_idempotent.
 
 (* Resume re-establishes exactly what start-up established: after any admissible session ending in Resume
-   every piece of terminal state Vaxis establishes (all modes incl. in-band resize, keypad, kitty stack, pen,
+   every piece of terminal state Vaxis establishes (all modes incl. in-band resize, keypad, both kitty stacks
+   -- Vaxis's flags on top of the alternate screen's stack, the main screen's stack untouched --, pen,
    hyperlink; not the cursor / pointer / application id, which the application drives) is what it was right
    after New -- for a terminal that reports in-band resize when it implements it. *)
 Theorem C04_resume_reestablishes :
   forall (o : opts) (det : flags) (d : data) (rows cols : Z) (ops : list op)
-         (other kitty0 appid0 : list Z) (honours : bool),
+         (other kitty0 kalt0 appid0 : list Z) (honours : bool),
   let fl := apply_quirks o (with_nomouse (o_nomouse o) det) in
-  let t0 := fresh_term other kitty0 (d_ustyle d) appid0 honours in
+  let t0 := fresh_term other kitty0 kalt0 (d_ustyle d) appid0 honours in
   (f_osc176 fl = true -> d_appid d = appid0) ->
   (honours = true -> f_inband fl = true) ->
   protocol fl PRun (ops ++ [OpResume]) = Some PRun ->
@@ -167,8 +173,8 @@ Example C04_example_session :
   /\ hits_suspended_shutdown ex_ops false false = false
   /\ (f_osc176 fl = true -> d_appid ex_data = [102; 97; 107; 101])
   /\ zlen (flat_map snd (session_chunks ex_opts ex_det ex_data 1 2 ex_ops)) = 172
-  /\ established (sem_toks (s_out (startup ex_opts ex_det ex_data)) (fresh_term [] [7] 4 [102; 97; 107; 101] true))
-     = (true, true, true, true, true, true, true, false, true, true, true, true, [], true, [1; 7], true, false, false).
+  /\ established (sem_toks (s_out (startup ex_opts ex_det ex_data)) (fresh_term [] [7] [9] 4 [102; 97; 107; 101] true))
+     = (true, true, true, true, true, true, true, false, true, true, true, true, [], true, [1; 9], [7], true, false, false).
 Proof. vm_compute. repeat split; reflexivity. Qed.
 
 (* the guarded class is not empty and the model predicts the hang for it: outcome codes of
@@ -183,8 +189,42 @@ Proof. vm_compute. split; reflexivity. Qed.
    not after Resume *)
 Example C04_example_blind_inband :
   let det := mkFlags false false false false false false false false false in
-  let t0 := fresh_term [] [] 0 [] true in
+  let t0 := fresh_term [] [] [] 0 [] true in
   m_inband (sem_toks (s_out (startup ex_opts det ex_data)) t0) = true
   /\ m_inband (sem_toks (flat_map snd (session_chunks ex_opts det ex_data 1 1 [OpSuspend; OpResume])) t0) = false
-  /\ sem_toks (flat_map snd (session_chunks ex_opts det ex_data 1 1 [OpSuspend])) t0 = fresh_term [] [] 4 [] true.
+  /\ sem_toks (flat_map snd (session_chunks ex_opts det ex_data 1 1 [OpSuspend])) t0 = fresh_term [] [] [] 4 [] true.
 Proof. vm_compute. repeat split; reflexivity. Qed.
+
+(* ---------- the order of Resume's calls matters, and the model sees it ---------- *)
+(* New; Suspend; Resume; Close on a terminal with every capability (kitty keyboard among them), where Resume
+   makes the calls [cs] in that order; everything written, start-up included *)
+Definition swapped_resume_calls : list callname := [CnOpenTty; CnEnableModes; CnEnterAlt; CnSetupSignals].
+Definition cycle_out (cs : list callname) : list otok :=
+  s_out (x_m (run_op ex_opts OpClose (do_resume_with cs ex_opts (run_op ex_opts OpSuspend
+           (start_session ex_opts ex_det ex_data 1 2))))).
+
+(* With the translated order ([resume_calls]: enterAltScreen, then enableModes, as in New) the terminal is
+   restored, both stacks included.  A Resume that enables the modes BEFORE it enters the alternate screen
+   writes the same sequences in another order, pushes the kitty flags on the stack of the MAIN screen and
+   pops, at Close, on the (other) stack of the alternate screen: the shell is left with Vaxis's keyboard flags
+   on top of its own, and the alternate screen has lost an entry that was not Vaxis's -- for every pair of
+   stacks the terminal started with.  (A reference terminal with one
+   global stack cannot tell the two orders apart.) *)
+Theorem C04_resume_order_refuted : forall (kitty0 kalt0 : list Z),
+  let t0 := fresh_term [] kitty0 kalt0 4 [102; 97; 107; 101] true in
+  sem_toks (cycle_out resume_calls) t0 = t0
+  /\ t_kitty (sem_toks (cycle_out swapped_resume_calls) t0) = d_kflags ex_data :: kitty0
+  /\ t_kitty_other (sem_toks (cycle_out swapped_resume_calls) t0) = tl kalt0
+  /\ sem_toks (cycle_out swapped_resume_calls) t0 <> t0
+  /\ zlen (toks_bytes (cycle_out swapped_resume_calls)) = zlen (toks_bytes (cycle_out resume_calls))
+  /\ restored (fresh_term [] [7] [9] 4 [102; 97; 107; 101] true)
+              (sem_toks (cycle_out swapped_resume_calls) (fresh_term [] [7] [9] 4 [102; 97; 107; 101] true)) = false.
+Proof.
+  intros kitty0 kalt0 t0. subst t0.
+  assert (K : t_kitty (sem_toks (cycle_out swapped_resume_calls) (fresh_term [] kitty0 kalt0 4 [102; 97; 107; 101] true))
+              = d_kflags ex_data :: kitty0) by (vm_compute; reflexivity).
+  split; [vm_compute; reflexivity|]. split; [exact K|]. split; [vm_compute; reflexivity|].
+  split; [|split; vm_compute; reflexivity].
+  intros E. rewrite E in K. cbn in K. apply (f_equal (@length Z)) in K. cbn in K. lia.
+Qed.
+Print Assumptions C04_resume_order_refuted.
